@@ -11,7 +11,8 @@ import numpy as np
 from . import gen, recgen, session
 
 CALLS = ["read-random-batch", "prior-sample", "prior-sample-linear", "rejection-obj-mem", "rejection-obj-cache", "rejection-file", "rejection-int",
-         "rejection-int-mem", "iterative-mem", "iterative-cache", "rejection-cache-random"]
+         "rejection-int-mem", "iterative-mem", "iterative-cache", "rejection-cache-random", "rejection-cache-random-all",
+         "rejection-mem-random", "iterative-cache-random"]
 
 
 def digest_samples(s):
@@ -95,6 +96,16 @@ def run_scenario(seed_tuple, tmpdir, pool_kind=0, api_seed_shift=0, pool=None, r
             elif kind == "rejection-cache-random":
                 r = joker.rejection_sample(pb.data, path, n_batches=c["n_batches"], randomize_prior_order=True,
                                            n_prior_samples=max(1, pb.N // 2))
+            elif kind == "rejection-cache-random-all":
+                # the whole library in a random order (another code path than a random subset)
+                r = joker.rejection_sample(pb.data, path if k % 2 else pb.lib, n_batches=c["n_batches"], randomize_prior_order=True)
+            elif kind == "rejection-mem-random":
+                r = joker.rejection_sample(pb.data, pb.lib, in_memory=True, randomize_prior_order=True,
+                                           n_prior_samples=max(1, pb.N - 1))
+            elif kind == "iterative-cache-random":
+                r = joker.iterative_rejection_sample(pb.data, path, n_requested_samples=c["n_req"], init_batch_size=10,
+                                                     n_linear_samples=c["n_linear"], n_batches=c["n_batches"],
+                                                     randomize_prior_order=True)
             elif kind == "rejection-int":
                 r = joker.rejection_sample(pb.data, c["size"] * 3, n_batches=c["n_batches"])
             elif kind == "rejection-int-mem":
